@@ -30,6 +30,10 @@ CHECKS = {
                 text='Partial: the xsi:type pipeline (lookup, derivation, block, abstract, rebound type used for content and attributes) '
                      'is complete on every path; the path condition of nil acceptance; block levels and abstract refusal. Derivation '
                      'reachability over arbitrary type graphs and value-space comparison of fixed values are not decided.', note=NOTE),
+    'C08': dict(ref='DESIGN.md §2 C08', technique='control-dependence path conditions, writer/reader table agreement, CFG must-pass-through',
+                text='Partial: only complete tuples enter a key reference, the ID table writer and reader agree on their constants and a '
+                     'second definition is reported, the scope-exit and end-of-document checks run on every completing path, counters '
+                     'report on the second occurrence. Value-space equality of field tuples and scope nesting are not decided.', note=NOTE),
 }
 NOT_APPLICABLE = {
     'C06': 'equivalence of lazy and eager traversals quantifies over runtime chunkings of runtime trees; no structural necessary '
@@ -41,4 +45,4 @@ NOT_APPLICABLE = {
 }
 for _p in ( 'C08', 'C09', 'C10', 'C11', 'C12', 'C13', 'C14', 'C17', 'C18', 'C19', 'C20'):
     NOT_APPLICABLE.setdefault(_p, PENDING)
-FIX_COMMITS = ['0d39fae', 'ee7fbf0']
+FIX_COMMITS = ['0d39fae', 'ee7fbf0', 'ec74ff3']
